@@ -46,6 +46,9 @@ ASSUMPTIONS = [
     '"Any byte string whatsoever" is explored as: all strings of length <= 2 (thorough: <= 4 over a 12-byte '
     'alphabet) and all <= E-edit variants of valid encodings (quick E=1, thorough E=2 on encodings <= 24 bytes).',
     'The statelessness part is checked by a sentinel battery at the end of every work unit, not after every input.',
+    'BER: the base encodings of the edit stage also include valid re-serialisations of the encoder output (indefinite '
+    'length, constructed string forms, padded length; one rewrite each, from mc/tlv4.py), because the encoder never '
+    'emits those forms and the decoder loops that handle them are otherwise more than one edit away.',
 ]
 
 ALPHA12 = bytes([0x00, 0x01, 0x02, 0x03, 0x04, 0x30, 0x31, 0x7f, 0x80, 0x81, 0xa0, 0xff])
@@ -242,6 +245,56 @@ def edits(enc, others, tier, codec):
         yield enc + bytes([b])
 
 
+_STRING_TAGS = (12, 18, 19, 20, 21, 22, 25, 26, 27, 28, 30)
+
+
+def ber_reserialisations(enc, tier):
+    """Valid BER re-serialisations of a valid encoding (one rewrite each: indefinite length, constructed
+    string forms with one / two / nested segments, a padded length), produced by the independent TLV
+    library mc/tlv4.py.  The encoder only ever emits the primitive definite form, so without these the
+    1-edit neighbourhood never reaches the decoder's constructed-string and end-of-contents loops.
+    Type-independent labelling: only UNIVERSAL OCTET STRING / BIT STRING / character string nodes are
+    segmented.  quick: per rewrite site one two-segment and one nested form; thorough: all."""
+    from .. import tlv4
+    try:
+        node, end = tlv4.parse(enc)
+        if end != len(enc):
+            return []
+    except Exception:
+        return []
+
+    def lab(x):
+        if x.cons:
+            for k in x.kids:
+                lab(k)
+        elif x.cls == 0 and x.num == 4:
+            x.lab = 'oct'
+        elif x.cls == 0 and x.num == 3 and len(x.content) >= 1:
+            x.lab = 'bits'
+        elif x.cls == 0 and x.num in _STRING_TAGS:
+            x.lab = 'oct'
+    lab(node)
+    cfg = tlv4.Cfg(pads=(1,), seg_depth=2, seg_max=4)
+    tlv4.mark_sites(node, cfg)
+    try:
+        vs = tlv4.variants(node, 1, cfg)
+    except Exception:
+        return []
+    out, taken = [], set()
+    for cost, data, ops in vs:
+        if cost != 1:
+            continue
+        path, op, arg, _ = ops[0]
+        if tier != 'thorough':
+            cls = (path, op) if op != 'seg' else (path, op, 'nested' if arg.startswith('[[') else
+                                                   'two' if ',' in arg else 'one')
+            if cls in taken:
+                continue
+            taken.add(cls)
+        out.append(bytes(data))
+    return out
+
+
 def limits(zw, nest, n):
     c1 = C1_ZERO_WIDTH if zw else C1
     steps = C0 + c1 * (n + 1) * (nest + 1)
@@ -327,7 +380,15 @@ def work(unit):
             run(data, 'short')
     else:
         encs = [e for e, _ in sentinels]
-        for enc in encs[:8]:
+        bases = list(encs[:8])
+        if codec == 'ber':
+            for enc in encs[:8 if tier == 'thorough' else 3]:
+                if len(enc) <= 64:
+                    for r in ber_reserialisations(enc, tier):
+                        if r not in bases:
+                            bases.append(r)
+                            res.count('ber_reserialised_base_encodings')
+        for enc in bases:
             first = list(edits(enc, encs, tier, codec))
             for d in first:
                 run(d, 'edit1')
